@@ -243,12 +243,14 @@ package allocator
 //@         math.pow2(net.maskBits(n.Mask) - net.maskOnes(n.Mask)) - ite(Buggy(ipaddr.nthAddr(*n, 0)), 1, 0)
 //@             - ite(net.maskBits(n.Mask) - net.maskOnes(n.Mask) > 0 && Buggy(ipaddr.nthAddr(*n, ipaddr.prefixSize(*n) - 1)), 1, 0)))
 // poolCount: no count is negative; what a (non-huge) address block contributes to the sums is cidrUsable ([szIs]).
-// (That every block is accounted for - a lower bound of the three sums per block - was tried and is not claimed: carrying
-// the quantified fact across the ipaddr calls of the loop body exceeds the solver budget, see DESIGN changelog round 9.)
+// That every block is visited is the structural clause `loop 1 complete`; the arithmetic statement "the sums cover every
+// block" was tried and is not claimed (solver budget, see DESIGN changelog round 9).
 //@ func poolCount
 //@   check overflow
 //@   requires PoolCIDRsOK(p)
 //@   ensures [nonneg] result0 >= 0 && result1 >= 0 && result2 >= 0
+// every address block of the pool is visited: the loop is left only when the list is exhausted
+//@   loop 1 complete [everyBlockVisited]
 //@   assert before saturatingAdd#1: [notHuge] !hugeCidr(cidr)
 //@   assert before saturatingAdd#1: [szIs] sz == cidrUsable(p, cidr)
 //@   assert before saturatingAdd#1: [cur] cidr == p.CIDR[idx(1)]
